@@ -4,5 +4,6 @@ CONSTANTS
   Keys = {"a", "b"}
   KeyPlans <- SymTwoCallPlans
   OutFile = "once_sched_2.ndjson"
+  ZeroKeySets <- AnyZeroKeys
 INVARIANTS Emit GenOK NoStuck
 CHECK_DEADLOCK FALSE
